@@ -272,7 +272,7 @@ func (in *c11Inst) Step(ev int) *vh.HViol {
 }
 
 func (in *c11Inst) Fingerprint() string {
-	return in.m.canon() + "|" + lbp.VStrategyState(in.y.k.LB())
+	return in.m.canon() + "|" + lbp.VStrategyState(in.y.k.LB()) + in.y.k.VNovel()
 }
 
 func c11Spec(strategy string, depth int) vh.HSpec {
